@@ -8,6 +8,7 @@ import (
 	"encoding/xml"
 
 	"mellium.im/xmlstream"
+	"mellium.im/xmpp/jid"
 	"mellium.im/xmpp/mux"
 	"mellium.im/xmpp/stanza"
 )
@@ -27,6 +28,10 @@ func Handle(h Handler) mux.Option {
 }
 
 // Handler can be used to handle incoming carbon copied messages.
+//
+// As required by XEP-0280 §11 only copies sent by the account itself (the
+// message has no from attribute, or one that is the bare JID of the address it
+// was sent to) are passed to F; copies forged by any other entity are ignored.
 type Handler struct {
 	F func(m stanza.Message, sent bool, inner xml.TokenReader) error
 }
@@ -35,6 +40,13 @@ type Handler struct {
 // it is used by the multiplexer and normally does not need to be called by the
 // user.
 func (h Handler) HandleMessage(p stanza.Message, r xmlstream.TokenReadEncoder) error {
+	// XEP-0280 §11: forwarded copies must be from the user's own bare JID (a
+	// session clears a from attribute that is its own bare JID before the
+	// message gets here), anything else must be ignored.
+	if !p.From.Equal(jid.JID{}) && !p.From.Equal(p.To.Bare()) {
+		return nil
+	}
+
 	// Pop the message start.
 	_, err := r.Token()
 	if err != nil {
